@@ -32,6 +32,11 @@ CLAIMED = {
    "DESIGN.md §6 C04",
    "Lean kernel; axioms propext/Classical.choice/Quot.sound only; hand-written model tied by correspondence; Debug/JSON escaping modelled for the generated alphabet.",
    "Lean 4 model of the iterator windows + refinement to list operations on the forest + random-script correspondence with pest::iterators"),
+ "C01": ("other",
+   "The documented semantics is written down as an independent executable reference denotation in Lean (PestModel.Ref: ordered choice, greedy repetition, predicates, implicit WHITESPACE/COMMENT, the four modifiers, built-ins, the stack; failure returns no state) and the real pipeline (optimize + Vm::parse, hook-free) is compared against it on every start rule and ALL inputs up to a length bound for random guarded grammars, in two builds (default, grammar-extras); the lowering VM model (PestModel.Lower.vmExpr over the proved ParserState model) is in place; the refinement theorem vm_refines_denote is not yet proved, hence level other.",
+   "DESIGN.md §6 C01",
+   "Reference denotation = transcription of derive/src/lib.rs prose + DESIGN §10 decisions; differential comparison as strong as the grammar/input generator; lister finding classified with hook H2.",
+   "Lean 4 reference denotation as oracle + exhaustive-per-grammar differential against optimize+Vm::parse (default and grammar-extras)"),
 }
 REASON_TODO = "not claimed yet: machinery for this property is not built in the committed tree (planned in DESIGN.md §6); no check is registered rather than an unsound one"
 
@@ -75,6 +80,6 @@ def main():
     json.dump(m, open(os.path.join(V, "MANIFEST.json"), "w"), indent=1)
     open(os.path.join(V, "MANIFEST.json"), "a").write("\n")
 
-HOOK_COMMITS = ["3f989e6"]
+HOOK_COMMITS = ["3f989e6", "590f51d"]
 if __name__ == "__main__":
     main()
